@@ -157,6 +157,9 @@ VARIANTS = [
        "proceed = enip_process( addr, data=data, **kwds )\n                    if True:\n                        rpy	= parser.enip_encode( data.response.enip )\n                        if log.isEnabledFor( logging.DETAIL ):\n                            log.detail( \"%s send: %5d: %s %s\"", fires=[ 'P-ONE' ] ),
     V( 'sender-context-store', LOGIX, "proceed = ucmm.request( data.response, addr=addr )", "data.response.enip.sender_context = dotdict( input=bytearray( 8 ))\n        proceed			= ucmm.request( data.response, addr=addr )", fires=[ 'D-ECHO' ] ),
     V( 'response-not-copied', LOGIX, "data.response.enip = dotdict( data.request.enip )", "data.response.enip	= data.request.enip", fires=[ 'D-ECHO' ] ),
+    V( 'response-is-the-request', LOGIX, "data.response = dotdict( data.request )", "data.response		= data.request", fires=[ 'D-ECHO' ] ),
+    V( 'response-copied-through-a-local', LOGIX, "data.response = dotdict( data.request )", "rsp			= dotdict( data.request )\n        data['response']	= rsp", silent=[ 'D-ECHO' ] ),
+    V( 'response-envelope-fresh-not-copied', LOGIX, "data.response.enip = dotdict( data.request.enip )", "data.response.enip	= dotdict()", fires=[ 'D-ECHO' ] ),
     V( 'unregister-proceeds', UCMM, "session or \"(Unknown)\" )\n proceed = False", "session or \"(Unknown)\" )\n                proceed		= True", fires=[ 'D-ECHO' ] ),
     V( 'rpy-constant-wrong', LOGIX, "RD_FRG_RPY = RD_FRG_REQ | 0x80", "RD_FRG_RPY			= RD_FRG_REQ | 0x08", fires=[ 'X-SERVICES' ] ),
     V( 'produce-branch-deleted', DEVICE, "elif data.get( 'service' ) == cls.GA_ALL_RPY:", "elif data.get( 'service' ) == 0x7FFF:", fires=[ 'X-SERVICES', 'L-AGREE' ] ),
@@ -197,6 +200,10 @@ VARIANTS = [
     V( 'forwards-key-without-port', DEVICE, "unique = addr[0],addr[1],fo.O_T.connection_ID", "unique			= addr[0],fo.O_T.connection_ID", fires=[ 'K-FORWARDS' ] ),
     V( 'forwards-key-T_O', DEVICE, "unique = addr[0],addr[1],fo.O_T.connection_ID", "unique			= addr[0],addr[1],fo.T_O.connection_ID", fires=[ 'K-FORWARDS' ] ),
     # ---- framework shape rules
+    V( 'sent-pushback-fifo', AUTO, "item = self._back.pop() if self._back else next( self._iter )", "item = self._back.pop( 0 ) if self._back else next( self._iter )", fires=[ 'R-SENT' ] ),
+    V( 'sent-pushback-after-iterator', AUTO, "result = self._back.pop() if self._back else next( self._iter )", "result = next( self._iter )", fires=[ 'R-SENT' ] ),
+    V( 'sent-pushback-if-statement', AUTO, "item = self._back.pop() if self._back else next( self._iter )",
+       "if not self._back:\n                item = next( self._iter )\n            else:\n                item = self._back.pop( -1 )", silent=[ 'R-SENT' ] ),
     V( 'sent-push-no-decrement', AUTO, "self._back.append( item )\n self._sent -= 1", "self._back.append( item )", fires=[ 'R-SENT' ] ),
     V( 'sent-chained-no-increment', AUTO, "except StopIteration:\n continue\n else:\n self._sent += 1\n return result", "except StopIteration:\n                    continue\n                return result", fires=[ 'R-SENT' ] ),
     V( 'limit-ending-unconditional', AUTO, "if ending is None or source.sent + limit < ending:\n ending = source.sent + limit", "if True:\n                    ending	= source.sent + limit", fires=[ 'R-LIMIT' ] ),
@@ -247,6 +254,17 @@ VARIANTS = [
     V( 'localize-constant-hint', TIMES, "return tzinfo.localize( datetime.datetime( *map( int, terms )), is_dst=is_dst )", "return tzinfo.localize( datetime.datetime( *map( int, terms )), is_dst=False )", fires=[ 'T-LOCALIZE' ] ),
     V( 'symbol-raw-key-lookup', DEVICE, "tag_canonical = canonicalize_tag( tag )\n address = symbol.get( tag_canonical, None )", "tag_canonical		= canonicalize_tag( tag )\n    address			= symbol.get( tag, None )", fires=[ 'T-SYMBOL' ] ),
     V( 'symbol-casefold', DEVICE, "tag_canonical = tag.lower()", "tag_canonical		= tag.casefold()", fires=[ 'T-SYMBOL' ] ),
+    V( 'prims-octets-substate-named-first', 'server/enip/parser.py',
+       """super( octets_base, self ).__init__( name=name, initial=octets_state(
+            name=octets_name, terminal=True, alphabet=octets_alphabet, encoder=octets_encoder,
+            typecode=octets_typecode, extension=octets_extension ), **kwds )""",
+       """sub = octets_state( name=octets_name, alphabet=octets_alphabet, terminal=True, encoder=octets_encoder,
+            typecode=octets_typecode, extension=octets_extension )
+        super( octets_base, self ).__init__( name=name, initial=sub, **kwds )""", silent=[ 'G-PRIMS' ] ),
+    V( 'prims-octets-substate-not-terminal', 'server/enip/parser.py',
+       "name=octets_name, terminal=True, alphabet=octets_alphabet", "name=octets_name, terminal=False, alphabet=octets_alphabet", fires=[ 'G-PRIMS' ] ),
+    V( 'prims-octets-extension-dropped', 'server/enip/parser.py',
+       "typecode=octets_typecode, extension=octets_extension ), **kwds )", "typecode=octets_typecode ), **kwds )", fires=[ 'G-PRIMS' ] ),
     V( 'prims-input-not-appended', AUTO, "thing.append( inp )", "pass", fires=[ 'G-PRIMS' ] ),
     V( 'resolve-unprotected-in-mr', DEVICE, "target = self.route( data, fail=self.ROUTE_RAISE )", "target		= self.route( data, fail=self.ROUTE_RAISE )", silent=[ 'S-RESOLVE' ] ),
     V( 'fowidth-assert-precedence', DEVICE, "assert data.service == ( cls.FWD_OPLG_REQ if large else cls.FWD_OPEN_REQ ), \\", "assert data.service == cls.FWD_OPLG_REQ if large else cls.FWD_OPEN_REQ, \\", fires=[ 'K-FOWIDTH' ], why='defect X' ),
